@@ -634,8 +634,10 @@ def special(mname, cname, layout):
         "rename_": [([L("p"), L("q")], {})],
         "refine_names": [([L("p"), L("q")], {}), ([L(None), L("q")], {})],
         "new_tensor": [([tensor([2, 2])], {}), ([["like", "tdfloat", 5]], {})],
-        "where": [([["tensor", bs, "bool", "mask"], ["like", "tdfloat", 5]], {}), ([["tensor", bs, "bool", "mask"], L(0.0)], {})],
-        "gather": [([L(0), ["tensor", [2, 2], "int64", "index"]], {}), ([L(1), ["tensor", [3, 1], "int64", "index"]], {})],
+        "where": [([["tensor", bs, "bool", "mask"], ["like", "tdfloat", 5]], {}), ([["tensor", bs, "bool", "mask"], L(0.0)], {}),
+                  ([["tensor", bs, "bool", "mask"], ["like", "tdfloat", 5]], {"out": ["like", "tdfloat", 7]})],
+        "gather": [([L(0), ["tensor", [2, 2], "int64", "index"]], {}), ([L(1), ["tensor", [3, 1], "int64", "index"]], {}),
+                   ([L(0), ["tensor", [2, 2], "int64", "index"]], {"out": ["likeidx", "td", 7, ["slice", 0, 2]]})],
         "masked_select": [([["tensor", bs, "bool", "mask"]], {})],
         "masked_fill": [([["tensor", bs, "bool", "mask"], L(3.0)], {})],
         "masked_fill_": [([["tensor", bs, "bool", "mask"], L(3.0)], {})],
@@ -1272,6 +1274,12 @@ def judge(case, o_tc, o_td, o_td2):
     if d:
         probs.append("state after the call " + d)
         flags.append("post")
+    # (1b) torch.cat of lazily stacked operands: dense vs lazily stacked result is a visible difference of the result
+    if case["name"] == "cat" and not outer and isinstance(ref, list) and ref and ref[0] == "TD" and isinstance(res, list) and res and res[0] == "TC":
+        inner = res[2]
+        if isinstance(inner, list) and inner and inner[0] == "TD" and inner[1] != ref[1]:
+            probs.append(f"result container: the tensordict gives a {ref[1]} result, the tensorclass wraps a {inner[1]}")
+            flags.append("kind")
     # (2) wrapping
     if outer:
         w = node_problems(res, ref, cls, fields) + node_problems(o_tc.get("post"), o_td.get("post"), cls, fields, "self-after")
